@@ -120,10 +120,10 @@ impl Ren {
                 }
                 "check" => {
                     let c = self.cond(st.b("c"));
-                    let e = if st.s("e") == "panic" { "test_fail(\"check\")".to_string() } else { "recall r()".to_string() };
+                    let e = if st.s("e") == "panic" { "test_fail(\"check\")".to_string() } else { "recall r(7, this.tag)".to_string() };
                     s += &format!("{pad}check {c} else {e}\n");
                 }
-                "recall" => s += &format!("{pad}recall r()\n"),
+                "recall" => s += &format!("{pad}recall r(7, this.tag)\n"),
                 "stray" => {
                     // a finish-only statement outside a finish block (expected: rejected)
                     let op = Self::ops(std::slice::from_ref(st.g("op")));
@@ -213,10 +213,14 @@ fn render_case(idx: usize, case: &Jv) -> Rendered {
     let mut r = Ren { fields: Vec::new(), lets: 0, extra: String::new(), idx };
     let pol = r.block(case.a("policy"), 8);
     let rec = r.block(case.a("recall"), 8);
+    // `tag` travels policy -> recall argument; the recall block checks both arguments, so a
+    // recall that passes the wrong values (or enters the decoy block `z`) is noticed
+    r.fields.push(("tag".into(), "int".into(), Value::Int(40 + (idx % 7) as i64)));
+    let tagv = 40 + (idx % 7) as i64;
     let fdef: Vec<String> = r.fields.iter().map(|(n, t, _)| format!("{n} {t}")).collect();
     let fpass: Vec<String> = r.fields.iter().map(|(n, _, _)| format!("{n}: {n}")).collect();
     let text = format!(
-        "{}command P{idx} {{\n    attributes {{ priority: 0 }}\n    fields {{ {} }}\n{SEAL_OPEN}    policy {{\n{pol}    }}\n    recall r() {{\n{rec}    }}\n}}\naction a{idx}({}) {{ publish P{idx} {{ {} }} }}\n\n",
+        "{}command P{idx} {{\n    attributes {{ priority: 0 }}\n    fields {{ {} }}\n{SEAL_OPEN}    policy {{\n{pol}    }}\n    recall z() {{\n        finish {{ emit E {{ n: 99 }} }}\n    }}\n    recall r(m int, t int) {{\n        check m == 7 else test_fail(\"recall arg 1\")\n        check t == {tagv} else test_fail(\"recall arg 2\")\n        check t == this.tag else test_fail(\"this in recall\")\n{rec}    }}\n}}\naction a{idx}({}) {{ publish P{idx} {{ {} }} }}\n\n",
         r.extra,
         fdef.join(", "),
         fdef.join(", "),
